@@ -57,11 +57,10 @@ example :
       [.arrive 0, .join 0, .arrive 1, .join 1, .resolve 0 .udp (.msg ⟨99, some ⟨1, 0, 1, 1⟩, true, 0, false, 5, false⟩) .fail, .wake 1, .wake 0]
     s.outs.length = 2 ∧ s.calls.length = 1 := by decide
 
-/-- The reply a caller of `Handle_` builds when it returned an error (SERVFAIL / TC=1) is made from
-the client's own message. -/
-theorem error_reply_carries_client_id_and_question (c : Client) (e : ErrKind) :
-    (errorReply c e).id = c.id ∧ (errorReply c e).q = some c.q := by
-  cases e <;> exact ⟨rfl, rfl⟩
+/-! The replies the four callers of `Handle_` build on an error (SERVFAIL, TC=1) are not part of any theorem:
+`errorReply` in the model is only the harness's reference for 60 direct calls of `sendDnsErrorResponse_` /
+`sendDnsTruncatedResponse_`; the callers themselves (udp.go, tcp.go, dns_listener.go, control_plane.go) are
+not executed by the tie. -/
 
 /-- **No foreign answer is cached.** Every cache entry is stored under the key of the question its
 packed bytes answer (name and type), in every reachable state. -/
@@ -205,10 +204,13 @@ section Pipe
 open Pipe
 
 /-- **A delivered message carries the ID its waiter allocated and was read from that waiter's own
-connection while the waiter was registered** — for any number of connections sharing the global slot
-pool, any interleaving of `RoundTrip` calls, `readLoop`s and `closeWithErr`s (including a holder
-standing between `pending[id].Swap(nil)` and `slot.set`), and any upstream (late, duplicate, unknown
-or foreign IDs).  In particular no message crosses from one connection or one call to another. -/
+connection** — for any number of connections sharing the global slot pool, any interleaving of
+`RoundTrip` calls, `readLoop`s and `closeWithErr`s (including a holder standing between
+`pending[id].Swap(nil)` and `slot.set`), and any upstream (late, duplicate, unknown or foreign IDs).  In
+particular no message crosses from one connection to another, or to a call registered under another ID.
+It does NOT say the message answers this call's request: a duplicate or late frame for an earlier holder of
+the same ID on the same connection is delivered to the current holder (example below); telling those
+apart is the controller's question check (§1). -/
 theorem delivered_matches_waiter (as : List Act) (w c id : Nat) (m : Msg)
     (h : (w, c, id, some m) ∈ (run codePolicy init as).log) : m.id = id ∧ m.conn = c :=
   (inv_run as _ inv_init).LG w c id m h
@@ -226,18 +228,16 @@ theorem allocate_returns_free_id (used : Nat → Bool) (next id : Nat) (h : allo
     used id = false ∧ id < 4096 :=
   allocate_spec used next id h
 
-/-- **A timeout closes the connection, and nothing read later is delivered**: cancelling a waiting
-`RoundTrip` marks its connection closed, `closed` never reverts, and `readLoop` hands no message of a
-closed connection to anyone. -/
+/-- **A timeout closes the connection**: cancelling a waiting `RoundTrip` marks its connection closed, and
+`closed` never reverts.  (What `readLoop` had already read when the connection was closed may still be
+delivered - to the waiter registered under that ID on that connection, by `delivered_matches_waiter`; the
+code has no check of `pc.closed` there and the model has none either.) -/
 theorem timeout_closes_connection (pol : Recycle) (s : St) (w c id sl : Nat) (h : s.pc w = .waiting c id sl) :
     (step pol s (.cancel w)).closed c = true ∧
-    (∀ a c', s.closed c' = true → (step pol s a).closed c' = true) ∧
-    (∀ c' id' tag, s.closed c' = true → step pol s (.recvSwap c' id' tag) = s) := by
-  refine ⟨by simp [step, h], ?_, ?_⟩
-  · intro a c' hc
-    cases a <;> simp only [step] <;> (repeat' split) <;> simp_all [upd] <;> (try split) <;> simp_all
-  · intro c' id' tag hc
-    simp [step, hc]
+    (∀ a c', s.closed c' = true → (step pol s a).closed c' = true) := by
+  refine ⟨by simp [step, h], ?_⟩
+  intro a c' hc
+  cases a <;> simp only [step] <;> (repeat' split) <;> simp_all [upd] <;> (try split) <;> simp_all
 
 /-- non-vacuity: a duplicate answer for an ID that has meanwhile been reused is delivered to the NEW
 holder of the ID (which is why the controller compares questions, §1) — the theorem above constrains
